@@ -10,6 +10,7 @@ import sx
 import gen
 import engine
 import pylayout
+import corr
 import pyxlib as P
 
 VERIF = P.VERIF
@@ -367,6 +368,123 @@ def mon_c16(res):
     return fails
 
 
+def parse_disc(toks):
+    """(value, cast) of an emitted discriminant expression: [-] (i N suffix) as _"""
+    ts = list(toks)
+    neg = False
+    if ts and ts[0] == "-":
+        neg = True
+        ts = ts[1:]
+    if not ts or not (isinstance(ts[0], list) and ts[0][0] == "i"):
+        return None
+    v = int(ts[0][1])
+    return (-v if neg else v, ts[0][2], [str(x) for x in ts[1:]])
+
+
+def mon_c08(res):
+    fails = []
+    exp = res.case.get("exp")
+    if res.hv[0] != "ok" or not exp:
+        return fails
+    reg = registry_of(res)
+    for epath, e in exp["enums"].items():
+        f, ename = file_of_type(res, epath)
+        it = struct_of(f, ename)
+        if it is None or it[0] != "enum":
+            fails.append(dict(clause="C08.enum_missing", detail=epath))
+            continue
+        at = corr.split_attrs(it[1])
+        if at["repr"] != e["base"]:
+            fails.append(dict(clause="C08.repr", detail="%s: repr(%s), declared %s" % (epath, at["repr"], e["base"])))
+        r = reg.get(tuple(epath.split("::")))
+        if r and (r[2], r[3]) != gen.PRIMS[e["base"]]:
+            fails.append(dict(clause="C08.size", detail="%s: resolved %s, base type %s" % (epath, r[2:], gen.PRIMS[e["base"]])))
+        variants = [v for v in it[4:] if isinstance(v, list) and v[0] == "variant"]
+        got = []
+        lo, hi = gen.INT_RANGE[e["base"]]
+        for v in variants:
+            d = parse_disc(v[3][1:])
+            got.append((str(v[2]), d[0] if d else None))
+            if d is None or d[2] != ["as", "_"] and d[2] != []:
+                fails.append(dict(clause="C08.disc_shape", detail="%s::%s: %s" % (epath, v[2], sx.show(v[3]))))
+            elif not (lo <= d[0] <= hi):
+                fails.append(dict(clause="C08.out_of_range", kf="KF_discr_out_of_range",
+                                  detail="%s::%s = %d does not fit %s" % (epath, v[2], d[0], e["base"])))
+        if got != [(n, v) for n, v in e["cases"]]:
+            fails.append(dict(clause="C08.values", detail="%s: emitted %s, declared %s" % (epath, got, e["cases"])))
+        defaults = [i for i, v in enumerate(variants) if corr.split_attrs(v[1])["default"]]
+        want = [e["default"]] if e["default"] is not None else []
+        if defaults != want:
+            fails.append(dict(clause="C08.default", detail="%s: #[default] at %s, declared %s" % (epath, defaults, want)))
+        der = at["derive"] or frozenset()
+        if ("Default" in der) != bool(e["defaultable"]):
+            fails.append(dict(clause="C08.derive_default", detail=epath))
+    return fails
+
+
+def path_of_type_tokens(ty_tokens, mod):
+    """emitted type tokens -> referenced item path tuple (crate-relative), or None"""
+    try:
+        t = pylayout.parse_type(ty_tokens)
+    except pylayout.LayoutError:
+        return None
+    while t[0] in ("ptr", "array"):
+        t = t[2] if t[0] == "ptr" else t[1]
+    if t[0] != "path":
+        return None
+    _, absolute, segs = t
+    if absolute:
+        return ("::",) + tuple(segs)
+    if segs[0] == "crate":
+        return tuple(segs[1:])
+    return tuple(segs)
+
+
+def mon_c11(res):
+    fails = []
+    exp = res.case.get("exp")
+    if not exp or "c11" not in exp:
+        return fails
+    c = exp["c11"]
+    if res.hv[0] == "ok" and not c["resolvable"]:
+        fails.append(dict(clause="C11.accepted_unresolvable", detail="a name with no binding under the scoping rules was accepted"))
+        return fails
+    if res.hv[0] != "ok":
+        if c["resolvable"]:
+            fails.append(dict(clause="C11.rejected_resolvable", detail="every name has a binding under the scoping rules, yet: %s" % str(res.hv[1])[:200]))
+        return fails
+    f, tname = file_of_type(res, c["obs"])
+    st = struct_of(f, tname)
+    if st is None:
+        return [dict(clause="C11.observer_missing", detail=c["obs"])]
+    mod = tuple(c["obs"].split("::")[:-1])
+    got = {str(x[3]): path_of_type_tokens(x[4][1:], mod) for x in st[4:] if isinstance(x, list) and x[0] == "field"}
+    for fname, name, bind, size in c["fields"]:
+        if got.get(fname) != tuple(bind):
+            fails.append(dict(clause="C11.binding", detail="%s.%s: name `%s` emitted as %s, scoping rules select %s"
+                              % (c["obs"], fname, name, got.get(fname), bind)))
+    reg = registry_of(res)
+    r = reg.get(tuple(c["obs"].split("::")))
+    if r and r[2] != c["total"]:
+        fails.append(dict(clause="C11.layout_uses_binding", detail="%s: resolved size %d, sizes of the selected definitions sum to %d" % (c["obs"], r[2], c["total"])))
+    ms = methods_of(f, tname)
+    m = ms.get("probe")
+    if m is None:
+        fails.append(dict(clause="C11.probe_missing", detail=c["obs"]))
+    else:
+        fp = fn_parts(m)
+        want = tuple(c["arg"][1])
+        for p_ in fp["params"]:
+            if isinstance(p_, list) and p_[0] == "arg":
+                g = path_of_type_tokens(p_[2][1:], mod)
+                if g != want:
+                    fails.append(dict(clause="C11.param_binding", detail="probe(p): %s, rules select %s" % (g, want)))
+        g = path_of_type_tokens(fp["ret"], mod)
+        if g != want:
+            fails.append(dict(clause="C11.ret_binding", detail="probe -> %s, rules select %s" % (g, want)))
+    return fails
+
+
 # ------------------------------------------------------------------------------------------------
 # property table
 
@@ -438,6 +556,43 @@ PROPS["C16"] = dict(
                "prefix equality (proved there).",
 )
 
+PROPS["C08"] = dict(
+    profile=dict(enums=(2, 6), types=(0, 2), externs=(0, 0), extern_values=(0, 0), p_markers=0.5, p_singleton=0.2,
+                 p_backend=0.0, fields=(0, 3), p_vftable=0.1, p_impl=0.1, miss=0.25),
+    n=(400, 6000), corpus=["common", "C08"],
+    aspects=["verdict", "enum_repr", "enum_values", "enum_default", "derive", "registry", "items"],
+    monitors=[mon_c08],
+    nontrivial=lambda res: res.hv[0] == "ok" and res.case.get("exp") and len(res.case["exp"]["enums"]) >= 1,
+    rule="gen.py ENUM profile: 2..6 enums per module over all ten integer bases, 1..6 variants, explicit values in decimal/hex/"
+         "binary/octal incl. the base type's MIN/MAX, negative values on signed bases, implicit runs, default marker at any/no/two positions; "
+         "non-trivial = accepted with >= 1 enum",
+    level_text="Proved in Coq (Properties/C08.v) for every state and enum description the model's enum_build accepts: representation = the declared base type with its "
+               "size and alignment; variant k has the written discriminant, else predecessor+1, else 0 (values_spec); exactly the marked variant is the default, "
+               "default markers and defaultable must come together (the three mismatches cannot yield Ok); rustc's `v as _` under repr(base) is v for in-range v "
+               "(cast_in_range). Out-of-range discriminants are the listed known finding F2 (C08_range_refuted shows it on the model; the repository's own test pins it). "
+               "Correspondence compares repr, derives, variant names/literals/default attribute and the registry; the monitor recomputes intended values from the description.",
+    level_note="Trusted: Coq kernel; model validated by this run's correspondence; cast semantics of `as _` is RustLayout.cast_discr (spec side).",
+    kf_class="KF_discr_out_of_range",
+)
+
+import gen_special  # noqa: E402
+PROPS["C11"] = dict(
+    generator=gen_special.gen_c11, n=(500, 8000), corpus=["common", "C11"],
+    aspects=["verdict", "field_types", "fn_sig", "registry", "extern", "body_addr", "noprogress_set"],
+    monitors=[mon_c11],
+    nontrivial=lambda res: res.hv[0] == "ok" and res.case.get("exp") and "c11" in res.case["exp"] and any(
+        b and len(b) > 1 for _, _, b, _ in res.case["exp"]["c11"]["fields"]),
+    rule="tools/gen_special.py gen_c11: the short names T, U, u32, Node defined with pairwise different sizes in 2..4 modules at nesting depth 1..3 "
+         "and/or locally; an observer module with 0..6 `use` lines mixing type imports, module imports, repeats and useless paths; an observer "
+         "packed type whose size is the sum of the bound types' sizes, and a function with pointer parameter/return type; the expected binding is "
+         "computed from the property's four rules by the generator; non-trivial = accepted and some field binds to a user definition",
+    level_text="Proved in Coq (Properties/C11.v): the model's resolve_string equals lookup_spec -- the property's precedence list -- for every registry, module "
+               "path (not itself an item path), use list and name; the result is an entry of the registry; the emitted reference is crate:: + that path; size and alignment "
+               "used for layout are that entry's. Correspondence compares every emitted field/parameter/return type and the registry; the monitor recomputes the binding "
+               "from the four rules (independently of model and implementation) and checks emitted paths and the observer's size.",
+    level_note="Trusted: Coq kernel; model validated by this run's correspondence. Scope note: a module path that is also an item path (a directory and a type sharing a name) is outside the theorem's hypothesis.",
+)
+
 NOT_YET = {}
 
 import c03  # noqa: E402
@@ -492,6 +647,45 @@ def load_findings():
     return json.load(open(p)).get("findings", [])
 
 
+def witness_files(f):
+    base = os.path.join(VERIF, f["witness"])
+    files = {}
+    for root, _, fns in os.walk(base):
+        for fn in fns:
+            if fn.endswith(".pyxis"):
+                full = os.path.join(root, fn)
+                files[os.path.relpath(full, base)] = open(full, encoding="utf-8", errors="replace").read()
+    return files
+
+
+def run_findings(pid, scratch):
+    """re-runs the witnesses of every listed finding of this property.
+    returns (known_lines, regressions, notes)"""
+    findings = [f for f in load_findings() if pid in f.get("properties", [])]
+    if not findings:
+        return [], [], []
+    cases = [dict(id=f["id"], ptr=4, schedule=[], files=witness_files(f)) for f in findings]
+    res = engine.run(cases, scratch, want_model=False)
+    known, regress, notes = [], [], []
+    for f, r in zip(findings, res):
+        dump = " ".join(sx.show(v) for v in r.hfiles.values() if v is not None)
+        if f["status"] == "finding":
+            d = f["defect_shows_as"]
+            shows = r.hv[0] == d["verdict"] and all(x in dump for x in d.get("dump_contains", []))
+            if shows:
+                known.append("KNOWN-FINDING: property=%s %s [%s, %s]" % (pid, f["what_fails"], f["id"], f["class"]))
+            else:
+                notes.append("finding %s no longer reproduces on its witness (verdict %s)" % (f["id"], r.hv[0]))
+        else:
+            e = f["expect_now"]
+            ok = r.hv[0] == e["verdict"] and all(x in dump for x in e.get("dump_contains", [])) \
+                and all(x in r.hfiles for x in e.get("files", []))
+            if not ok:
+                regress.append(dict(clause="regression of fixed finding %s" % f["id"], detail=f["what_failed"],
+                                    impl_verdict=list(r.hv), case=summarise_case(r.case)))
+    return known, regress, notes
+
+
 def match_finding(findings, pid, fail):
     """a failure is a known finding when a listed *open* finding of this property names its class"""
     for f in findings:
@@ -511,7 +705,10 @@ def gen_cases(pid, prop, n, seed):
     base = int(hashlib.sha256(("%s/%d" % (pid, seed)).encode()).hexdigest()[:12], 16)
     for i in range(n):
         ptr = 4 if i % 2 == 0 else 8
-        files, exp = gen.generate(base + i, ptr, prop.get("profile"))
+        if prop.get("generator"):
+            files, exp = prop["generator"](base + i, ptr)
+        else:
+            files, exp = gen.generate(base + i, ptr, prop.get("profile"))
         cases.append(dict(id="%s-g%d" % (pid, i), ptr=ptr, schedule=[], files=files, exp=exp, gseed=base + i))
     return cases
 
